@@ -381,6 +381,8 @@ fn _parse_interface_list(
                     }
                     Err(err) => {
                         ctx.diagnostics.push(err);
+                        // The tokens before this point were already examined by the failed attempt
+                        let failed_at = ctx.stream.state();
                         ctx.stream.set_state(state);
                         if let Some(token) = ctx.stream.peek() {
                             if is_sync_kind(list_type, token.kind) {
@@ -389,7 +391,30 @@ fn _parse_interface_list(
                         }
 
                         // Recover
+                        // A parenthesis that the failed attempt got past may enclose a nested
+                        // interface list. Its separators do not belong to this list and it has
+                        // already been parsed, never synchronize inside of it.
+                        let mut par_depth: usize = 0;
                         while let Some(token) = ctx.stream.peek() {
+                            if ctx.stream.state() < failed_at {
+                                match token.kind {
+                                    LeftPar => {
+                                        par_depth += 1;
+                                        ctx.stream.skip();
+                                        continue;
+                                    }
+                                    RightPar if par_depth > 0 => {
+                                        par_depth -= 1;
+                                        ctx.stream.skip();
+                                        continue;
+                                    }
+                                    _ if par_depth > 0 => {
+                                        ctx.stream.skip();
+                                        continue;
+                                    }
+                                    _ => {}
+                                }
+                            }
                             match token.kind {
                                 SemiColon => {
                                     ctx.stream.skip();
